@@ -166,6 +166,7 @@ int main(int argc, char **argv) {
         vh_where = op;
         int inject = (inj_at || inj_from) && (!strcmp(op, "put") || !strcmp(op, "get") || !strcmp(op, "walk"));
         for (long kk = 1;; kk++) {
+            if (inject && kk > 300) inject = 0;      /* give up injecting: finish the operation normally */
             int ok = 1, len = 0, rv = 0; size_t rsz = 0;
             unsigned char *v = NULL; char *kb = NULL;
             if (!strcmp(op, "put")) {
@@ -217,7 +218,7 @@ int main(int argc, char **argv) {
                 /* every third step the roles swap: operation continues on the copy through the attached handle */
                 T->free(T); T = T2; cur = other; mem = copy;
             } else if (T2) T2->free(T2);
-            if (!inject || nfail == 0 || ok || kk > 64) break;
+            if (!inject || nfail == 0 || ok ) break;
         }
     }
     vh_close();
